@@ -87,7 +87,11 @@ func observe(oc *fw.Outcome, e *Exec, count bool) (o obs, fs []finding, program 
 		if fn := builtinOfFrame(fw.TopFalcoFrame(o.stack)); fn != "" && e.Fam != "F2" {
 			e.Con = "fn:" + fn
 		}
-		fs = append(fs, finding{fw.PanicKey(o.stack) + "/", fmt.Sprintf("%s panicked: %s\nprogram:\n%s\n%s", modeName(e.Mode), o.msg, clip(program, 1500), topFrames(o.stack, 8))})
+		pk := fw.PanicKey(o.stack)
+		if strings.HasPrefix(o.stack, "recovered by tester.Run") {
+			pk = "panic:recovered-by-tester"
+		}
+		fs = append(fs, finding{pk + "/", fmt.Sprintf("%s panicked: %s\nprogram:\n%s\n%s", modeName(e.Mode), o.msg, clip(program, 1500), topFrames(o.stack, 8))})
 	case "steps":
 		fs = append(fs, finding{"steps:", fmt.Sprintf("%s executed more than %d statements for one request\nprogram:\n%s", modeName(e.Mode), stepBudget, clip(program, 1500))})
 	case "tester-timeout":
